@@ -18,6 +18,12 @@ func init() {
 			c14R1(c, "C14.R1")
 			c14R2(c, "C14.R2")
 			c14R4(c, "C14.R4")
+			ruleTestedErrorsPropagate(c, "C14.R6", []string{rootPkg, commonPath}, 5, func(n string) bool {
+				return strings.Contains(n, "(*Tx).WriteTo") || strings.Contains(n, "(*Tx).Copy") || strings.Contains(n, "common.CopyFile")
+			}) // a backup that could not be written is not reported as complete
+			ruleWriteErrorsKept(c, "C14.R7", []string{rootPkg, commonPath}, 3, func(n string) bool {
+				return strings.Contains(n, "(*Tx).WriteTo") || strings.Contains(n, "(*Tx).Copy") || strings.Contains(n, "common.CopyFile")
+			})
 			ruleFreeSetEntry(c, "C14.R5") // pages of the snapshot being copied stay out of the free set while the backup reader is registered
 		},
 	})
